@@ -305,7 +305,8 @@ def observe(v, sid, nodes, mode, names, conforming, want, lines=None, xec=False)
 
 
 def _chunk(args):
-    v, sids, seed, quick, want = args
+    v, sids, seed, quick, want = args[:5]
+    light = set(args[5]) if len(args) > 5 else set()
     rnd = random.Random("%s-%s-%s" % (seed, v, want))
     out = []
     for sid in sids:
@@ -320,7 +321,16 @@ def _chunk(args):
             out.append({"harness_note": "skipped %s %s: placeholder segment (ANYHL7SEGMENT) in the structure" % (v, sid)})
             continue
         insts = instances(st, rnd, quick)
+        if sid in light:    # (quick tier: the structures outside the sample get their all-children instance only)
+            insts = [x for x in insts if x[0] == "all_children"]
         for k_, (mode, names, conf) in enumerate(insts):
+            if sid in light:
+                if want == "C08":
+                    out.append(observe(v, sid, nodes, mode, names, conf, want))
+                else:
+                    out.append(observe(v, sid, nodes, mode + "+rich", names, False, want,
+                                       [msh(v, sid)] + [rich_line(n, v, rnd) for n in names[1:]]))
+                continue
             if want == "C08":
                 out.append(observe(v, sid, nodes, mode, names, conf, want))
                 if k_ % 3 == 0 or not quick:
@@ -357,11 +367,17 @@ def run(ctx, want, signature):
     for v in T.versions():
         sids = T.message_names(v)
         total += len(sids)
+        rest = []
         if quick:
             rnd.shuffle(sids)
-            sids = sids[:22 if want == "C08" else 7]
+            n_ = 22 if want == "C08" else 7
+            sids, rest = sids[:n_], sorted(sids[n_:])
         for k in range(3):
             jobs.append((v, sids[k::3], ctx.seed, quick, want))
+        # quick tier: every structure of every version is at least instantiated once (all its members, in order)
+        for k in range(2):
+            if rest[k::2]:
+                jobs.append((v, rest[k::2], ctx.seed, quick, want, rest[k::2]))
     events = []
     for part in pmap(_chunk, jobs):
         for e in part:
